@@ -83,6 +83,23 @@ func main() {
 		for _, f := range p.RepoFuncs {
 			fmt.Printf("%s\t%s\t%d blocks\n", fnName(f), p.Pos(f.Pos()), len(f.Blocks))
 		}
+	case "loops":
+		p, err := Load(*repo, *goos, "", nil)
+		if err != nil {
+			fmt.Fprintln(os.Stderr, err)
+			os.Exit(2)
+		}
+		n, un := 0, 0
+		for _, f := range p.RepoFuncs {
+			for _, lc := range classifyLoops(f) {
+				n++
+				if lc.Variant == "" {
+					un++
+					fmt.Printf("UNCLASSIFIED %s  head@%s\n", loopKey(lc), p.Pos(lc.L.Head.Instrs[len(lc.L.Head.Instrs)-1].Pos()))
+				}
+			}
+		}
+		fmt.Printf("%d loops, %d unclassified\n", n, un)
 	case "explain":
 		if len(pos) != 1 {
 			usage()
